@@ -229,6 +229,40 @@ def check(ctx):
                               'the function is memoised (@%s) and returns a mutable object (`%s`): every caller receives the same object, so a caller that extends it in place changes the '
                               'result of all later calls with the same argument - the second encoding of the same value differs from the first' % (decos[0], norm_stmt(mutable)),
                               stmt='memoised function returns a mutable object')
+    # ---- R7: what a decoder puts into its result is the caller's to modify.  The DEFAULT value of a member lives on the compiled type; a decoder that fills in an absent
+    #      member hands out a copy (get_default() copies), never the attribute itself -- the default of a SEQUENCE OF is a list, and a caller that appends to the decoded
+    #      list would change every later decode.
+    ctx.rule('C18.R7', 'decoders fill in an absent DEFAULT member with a copy of the default (through get_default(), which copies), never with the object kept on the compiled type')
+    bt = model.mod('asn1tools/codecs/__init__.py').classes.get('BaseType')
+    gd = bt.methods.get('get_default') if bt else None
+    copies = False
+    if gd is not None:
+        rets7 = [r_ for r_ in walk_no_nested(gd) if isinstance(r_, ast.Return) and r_.value is not None]
+        copies = bool(rets7) and all(isinstance(r_.value, ast.Call) and ast.unparse(r_.value.func).split('.')[-1] in ('deepcopy', 'copy') for r_ in rets7)
+    ctx.instance('C18.R7', 'BaseType.get_default returns a copy', 'ok' if copies else 'VIOLATION', node=gd, file='asn1tools/codecs/__init__.py')
+    if not copies:
+        ctx.violation('C18.R7', 'asn1tools/codecs/__init__.py', gd, Model.qual(gd) if gd is not None else 'BaseType.get_default',
+                      'get_default() returns the default object kept on the compiled type: the decoders put it into the decoded value, so for `l SEQUENCE OF INTEGER DEFAULT {}` a caller '
+                      'that appends to the decoded list changes what every later decode of an absent `l` returns', stmt='default handed out by reference')
+    n7 = 0
+    for name in ('ber', 'der', 'per', 'uper', 'oer', 'jer', 'xer'):
+        m7 = model.mod('asn1tools/codecs/%s.py' % name)
+        for f7 in [x_ for x_ in ast.walk(m7.tree) if isinstance(x_, ast.FunctionDef) and x_.name.startswith('decode')]:
+            for a7 in walk_no_nested(f7):
+                if isinstance(a7, ast.Assign) and isinstance(a7.targets[0], ast.Subscript):
+                    v7 = a7.value
+                    direct = isinstance(v7, ast.Attribute) and v7.attr == 'default' and not (isinstance(v7.value, ast.Name) and v7.value.id == 'self')
+                    through = isinstance(v7, ast.Call) and isinstance(v7.func, ast.Attribute) and v7.func.attr == 'get_default'
+                    if not (direct or through):
+                        continue
+                    n7 += 1
+                    ctx.instance('C18.R7', '%s: %s' % (Model.qual(f7), norm_stmt(a7)), 'VIOLATION' if direct else 'copy through get_default()', node=a7, file=m7.rel)
+                    if direct:
+                        ctx.violation('C18.R7', m7.rel, a7, Model.qual(f7),
+                                      '`%s` puts the default object of the compiled type itself into the decoded value (not get_default(), which copies): the caller shares a mutable '
+                                      'object with the specification' % norm_stmt(a7), stmt='default attribute handed out')
+    if n7 < 4:
+        raise AnalysisError('C18.R7 found only %d places where a decoder fills in a default' % n7)
     ctx.instance('C18.R6', '%d functions of the package examined, %d memoised' % (n_funcs, n6), 'ok', nontrivial=n_funcs > 500)
     if n_funcs < 500:
         raise AnalysisError('C18.R6 saw only %d functions' % n_funcs)
@@ -238,6 +272,10 @@ PER = 'asn1tools/codecs/per.py'
 BER = 'asn1tools/codecs/ber.py'
 JER = 'asn1tools/codecs/jer.py'
 MUTANTS = [
+    dict(name='get_default hands out the default object itself', file='asn1tools/codecs/__init__.py',
+         old="        return deepcopy(self.default)", new="        return self.default", expect='C18.R7'),
+    dict(name='PER decoder fills in the default attribute', file='asn1tools/codecs/per.py',
+         old="                values[member.name] = member.get_default()", new="                values[member.name] = member.default", expect='C18.R7'),
     dict(name='memoise last index in per.Enumerated.decode', file=PER, quick=True,
          old="""    def decode_unbound(self, decoder):
         decoder.align()
